@@ -105,6 +105,10 @@ func refOf(hash string, data []byte) string {
 		s := sha1.Sum(data)
 		return "sha1-" + hex.EncodeToString(s[:])
 	}
+	if hash == "sha256" {
+		s := sha256.Sum256(data)
+		return "sha256-" + hex.EncodeToString(s[:])
+	}
 	s := sha256.Sum224(data)
 	return "sha224-" + hex.EncodeToString(s[:])
 }
@@ -140,10 +144,8 @@ func genBlob(t *rapid.T, m *model) tblob {
 	case "tiny":
 		data = xorshift(seed, int(seed%4))
 	}
-	hash := "sha224"
-	if rapid.IntRange(0, 6).Draw(t, "sha1") == 0 {
-		hash = "sha1"
-	}
+	// mostly the default hash; refs of the two other supported hash functions sort before and after it
+	hash := rapid.SampledFrom([]string{"sha224", "sha224", "sha224", "sha224", "sha224", "sha1", "sha256", "sha256"}).Draw(t, "hash")
 	return tblob{ref: refOf(hash, data), data: data, desc: fmt.Sprintf("%s/%d/%s", kind, len(data), hash)}
 }
 
@@ -157,18 +159,19 @@ func absentRef(seed uint64, i int) string {
 // ---------------------------------------------------------------------------
 
 type caseEnv struct {
-	t         *rapid.T
-	spec      vhttp.Spec
-	srv       *vhttp.Server
-	root      string // blob root URL without trailing slash
-	hc        *http.Client
-	cl        *client.Client
-	m         *model
-	log       []string
-	files     int  // files uploaded by clientUploadFile
-	longPolls int  // concurrentLongPollStat rounds
-	pages2    bool // a paged enumeration with >= 2 pages happened
-	mixed     bool // a stat batch mixing present and absent refs happened
+	t           *rapid.T
+	spec        vhttp.Spec
+	srv         *vhttp.Server
+	root        string // blob root URL without trailing slash
+	hc          *http.Client
+	cl          *client.Client
+	m           *model
+	log         []string
+	files       int  // files uploaded by clientUploadFile
+	longPolls   int  // concurrentLongPollStat rounds
+	concUploads int  // concurrentUploads rounds
+	pages2      bool // a paged enumeration with >= 2 pages happened
+	mixed       bool // a stat batch mixing present and absent refs happened
 	// refs offered with wrong bytes (must stay absent unless uploaded genuinely later)
 	refused map[string]bool
 }
@@ -569,6 +572,77 @@ func (e *caseEnv) checkStat(what string, refs []string, got map[string]int, dups
 			e.violate("%s: stat result contains %s which was not asked for", what, r)
 		}
 	}
+}
+
+// concurrentUploads: several clients upload different blobs of tens to hundreds of KB at the same time
+// (pkg/client multipart and raw PUT mixed). Each of them is valid, so each must be acknowledged, and
+// afterwards served byte for byte.
+func (e *caseEnv) concurrentUploads() {
+	if e.concUploads >= 2 {
+		e.t.Skip("two concurrent upload rounds per history are enough")
+	}
+	e.concUploads++
+	k := rapid.IntRange(3, 8).Draw(e.t, "uploaders")
+	var bs []tblob
+	seen := map[string]bool{}
+	for i := 0; i < k; i++ {
+		n := rapid.SampledFrom([]int{20000, 32769, 70000, 200000, 400000}).Draw(e.t, "concSize")
+		data := xorshift(rapid.Uint64().Draw(e.t, "concSeed"), n)
+		b := tblob{ref: refOf("sha224", data), data: data, desc: fmt.Sprintf("binary/%d/sha224", n)}
+		if seen[b.ref] {
+			continue
+		}
+		seen[b.ref] = true
+		bs = append(bs, b)
+	}
+	usePut := rapid.SliceOfN(rapid.Bool(), len(bs), len(bs)).Draw(e.t, "viaPut")
+	e.logf("%d concurrent uploads (client.Upload / raw PUT) of %d..%d bytes", len(bs), len(bs[0].data), len(bs[len(bs)-1].data))
+	errs := make([]string, len(bs))
+	var wg sync.WaitGroup
+	for i := range bs {
+		wg.Add(1)
+		go func(i int) {
+			defer wg.Done()
+			b := bs[i]
+			if usePut[i] {
+				req, _ := http.NewRequest("PUT", e.root+"/camli/"+b.ref, bytes.NewReader(b.data))
+				req.SetBasicAuth(user, pass)
+				res, err := e.hc.Do(req)
+				if err != nil {
+					errs[i] = "transport: " + err.Error()
+					return
+				}
+				body, _ := io.ReadAll(res.Body)
+				res.Body.Close()
+				if res.StatusCode/100 != 2 {
+					errs[i] = fmt.Sprintf("PUT camli/%s (%d bytes) answered HTTP %d %q", b.ref, len(b.data), res.StatusCode, trimQ(string(body)))
+				}
+				return
+			}
+			h := &client.UploadHandle{BlobRef: blob.MustParse(b.ref), Size: uint32(len(b.data)), Contents: bytes.NewReader(b.data)}
+			if _, err := e.cl.Upload(context.Background(), h); err != nil {
+				errs[i] = fmt.Sprintf("client.Upload(%s, %d bytes) failed: %v", b.ref, len(b.data), err)
+			}
+		}(i)
+	}
+	wg.Wait()
+	for i, b := range bs {
+		if strings.HasPrefix(errs[i], "transport: ") {
+			e.t.Fatalf("VERIF-INCONCLUSIVE harness: concurrent PUT: %s", errs[i])
+		}
+		if errs[i] != "" {
+			e.violate("one of %d concurrent uploads of valid blobs was refused: %s", len(bs), errs[i])
+		}
+		e.m.blobs[b.ref] = b.data
+		delete(e.refused, b.ref)
+	}
+	for _, b := range bs {
+		res, body := e.req("GET", "/camli/"+b.ref, nil, "")
+		if res.StatusCode != 200 || !bytes.Equal(body, b.data) {
+			e.violate("after %d concurrent uploads: GET %s -> HTTP %d, %d bytes; uploaded %d bytes", len(bs), b.ref, res.StatusCode, len(body), len(b.data))
+		}
+	}
+	evid.R.Label("history/with-concurrent-uploads")
 }
 
 // concurrentLongPollStat: several clients long-poll (maxwaitsec) for the same blob that is not there yet,
@@ -990,6 +1064,7 @@ func runHistories(t *testing.T, storage, index string) {
 			"clientFetch":            func(*rapid.T) { e.clientFetch() },
 			"rawStat":                func(*rapid.T) { e.rawStat() },
 			"concurrentLongPollStat": func(*rapid.T) { e.concurrentLongPollStat() },
+			"concurrentUploads":      func(*rapid.T) { e.concurrentUploads() },
 			"clientStat":             func(*rapid.T) { e.clientStat() },
 			"rawEnumPage":            func(*rapid.T) { e.rawEnumPage() },
 			"rawEnumAll":             func(*rapid.T) { e.rawEnumAll() },
